@@ -69,18 +69,20 @@ Definition digits13 (s : bytes) : option (bytes * bytes) :=
   end.
 
 (* [245]\.\d{1,3}\.\d{1,3}\b at the start of s *)
+Definition at_boundary (r : bytes) : bool := match r with [] => true | x :: _ => negb (is_word x) end.
+
 Definition esc_here (s : bytes) : option bytes :=
   match s with
-  | c :: 46 :: r1 =>
-      if (c =? 50) || (c =? 52) || (c =? 53) then
+  | c :: p :: r1 =>
+      if ((c =? 50) || (c =? 52) || (c =? 53)) && (p =? 46) then
         match digits13 r1 with
-        | Some (d1, 46 :: r2) =>
-            match digits13 r2 with
-            | Some (d2, r3) =>
-                let boundary := match r3 with [] => true | x :: _ => negb (is_word x) end in
-                if boundary then Some (c :: 46 :: d1 ++ 46 :: d2) else None
-            | None => None
-            end
+        | Some (d1, q :: r2) =>
+            if q =? 46 then
+              match digits13 r2 with
+              | Some (d2, r3) => if at_boundary r3 then Some (c :: 46 :: d1 ++ 46 :: d2) else None
+              | None => None
+              end
+            else None
         | _ => None
         end
       else None
